@@ -17,9 +17,9 @@ class Lexer:
 
     def __init__(self, text: str, *, path: "Optional[str]" = PATH_STRING) -> None:
         self.text = text
-        self.file_lines = text.splitlines()
-        if self.text.endswith("\n"):
-            self.file_lines.append("")
+        # Lines are counted by newline characters (see `next_char`), so the list of
+        # lines must be split on newlines only, not on form feeds and the like.
+        self.file_lines = text.split("\n")
         self.position = 0
         self.line = 1
         self.column = 1
